@@ -120,6 +120,13 @@ def check(run):
     whosets(run, p, rt)
     flags(run, p)
     rw(run, p, E, rt)
+    from .c04 import split
+    split(run, p, p.cls('FilesComparison'))
+    run.rules['C10-SPLIT'] = run.rules.pop('C04-SPLIT') + ' (a reference regenerated from a string must split back into the lines the string splits into)'
+    for o in run.obs:
+        if o.rule == 'C04-SPLIT':
+            o.rule = 'C10-SPLIT'
+    run.floors = [(('C10-SPLIT' if r == 'C04-SPLIT' else r), c, m) for r, c, m in run.floors]
     ief.run_ief(run, 'C10', methods, triage=triage.IEF)
     run.floor('C10-IEF', run.units['ief_functions_checked'], 60)
     run.assume('user callbacks (preprocess, condition, csv_read_fn, a custom writer/loader) are effect-free')
@@ -163,6 +170,15 @@ def whosets(run, p, rt):
         ok = f.name == 'set_regeneration'
         run.ob('C10-WHOSETS', '%s::%s::store' % (f.rel, f.short), ok,
                'store into the regeneration table in %s' % f.short, fn=f, node=n)
+        if ok and isinstance(n, ast.Assign):
+            # exactly the named kind: the key is the kind parameter itself, the value the regenerate parameter
+            for t in n.targets:
+                if isinstance(t, ast.Subscript):
+                    key_ok = isinstance(t.slice, ast.Name) and t.slice.id in f.params and t.slice.id == 'kind'
+                    val_ok = isinstance(n.value, ast.Name) and n.value.id in f.params
+                    run.ob('C10-WHOSETS', '%s::%s::key' % (f.rel, f.short), key_ok and val_ok,
+                           '`%s`: the table is keyed by %s and set to %s' % (norm(n), norm(t.slice), norm(n.value)) +
+                           ('' if key_ok else ' - not the kind as given, so another kind (or all kinds) can be switched on'), fn=f, node=n)
     callers = []
     for f in p.funcs.values():
         for n in p.own_nodes(f):
